@@ -42,7 +42,7 @@ func c02Judge(c *mon.Ctx, a, b *exact.Shape, family string, closedA bool, cfgs [
 		enc := allEncs[int(uint64(hashShape(mon.NewH(), b))%uint64(len(allEncs)))]
 		sc := enc.Name
 		c.Try(func() {
-			ic := cfgs[len(cfgs)-1]
+			ic := cfgs[int(uint64(hashShape(mon.NewH(), a))%uint64(len(cfgs)))]
 			la, lb := buildLibEnc(a, ic, closedA, enc), buildLibEnc(b, ic, !closedA, enc)
 			ab, ba := gIntersects(la, lb), gIntersects(lb, la)
 			c.Eval()
